@@ -213,3 +213,32 @@ theorem broadcastRaw_spec {α : Type} (t : Tensor α) (hwf : t.WF) (shape : List
   simp [List.getElem?_map, List.getElem?_range hk, h2]
 
 end Qeep
+
+namespace Qeep
+
+theorem projLE_self : ∀ (ds u : List Nat), u.length = ds.length → projLE ds ds u = u
+  | [], [], _ => rfl
+  | [], _ :: _, h => by simp at h
+  | _ :: _, [], h => by simp at h
+  | d :: ds, x :: u, h => by simp [projLE, projLE_self ds u (by simpa using h)]
+
+theorem validBroadcastLE_self : ∀ (ds : List Nat), validBroadcastLE ds ds = true
+  | [] => rfl
+  | d :: ds => by simp [validBroadcastLE, validBroadcastLE_self ds]
+
+/-- broadcasting to the tensor's own shape copies it -/
+theorem broadcast_self {α : Type} (t : Tensor α) (hwf : t.WF) : t.broadcastRaw t.dims = some t := by
+  have hv : validBroadcast t.dims t.dims = true := validBroadcastLE_self _
+  obtain ⟨data, h1, h2, h3⟩ := broadcastRaw_spec t hwf t.dims hwf.2 hv
+  have hpos : ∀ d ∈ t.dims.reverse, 0 < d := fun d hd => hwf.2 d (by simpa using hd)
+  have : data = t.data := by
+    apply List.ext_getElem?
+    intro k
+    by_cases hk : k < prod t.dims
+    · obtain ⟨e1, _⟩ := h3 k hk
+      rw [e1, projLE_self _ _ (valid_iter hpos k).length_eq, Tensor.at?_reverse t (valid_iter hpos k),
+        val_iter hpos k, prod_reverse, Nat.mod_eq_of_lt hk]
+    · rw [List.getElem?_eq_none (by omega), List.getElem?_eq_none (by rw [hwf.1]; omega)]
+  rw [h1, this]
+
+end Qeep
